@@ -248,6 +248,25 @@ def check_identify(run, ix):
     for st in _walk_own(fn):
         if isinstance(st, ast.Assign) and isinstance(st.targets[0], ast.Name):
             defs.setdefault(st.targets[0].id, []).append(st)
+    # the (value, name) pairs of a dict of constants come from ONE iteration over its items
+    pairs_ok = None
+    for st in _walk_own(fn):
+        if isinstance(st, ast.Assign) and norm(st.targets[0]) == 'constants' and isinstance(st.value, ast.ListComp):
+            gen = st.value.generators[0]
+            it = norm(gen.iter)
+            if 'constants' in it and ('items()' in it or 'zip(' in it or 'values()' in it or 'keys()' in it):
+                if it in ('sorted(constants.items())', 'constants.items()') and isinstance(gen.target, ast.Tuple):
+                    pairs_ok = (True, st)
+                else:
+                    pairs_ok = (False, st)
+    if pairs_ok is None:
+        raise AnalysisError('identify: normalisation of a dict of constants not found')
+    if pairs_ok[0]:
+        run.ok('Q-R4', 'dict constants: value and name come from the same item')
+    else:
+        run.fail(F('Q-R4', 'identify', pairs_ok[1], 'names and values of the constants are not taken from one '
+                   'iteration over constants.items(): values can be attached to the wrong names, and the returned '
+                   'formula then does not evaluate to x'))
     # M and tol
     mdef = defs.get('M', [])
     if len(mdef) == 1 and norm(mdef[0].value) == 'maxcoeff':
